@@ -47,6 +47,10 @@ claim("C11", "Coq proof (bisimulation: run independent of the contents of fresh 
       "Proof: for every host and any two contents of freshly allocated memory the complete run of the SZDD scripts (result, every callback with its bytes, ledger) is identical. Tie: L2 correspondence. LZX (early-match rejection), MSZIP, Quantum, KWAJ-LZH, CAB and CHM paths are covered on the C side only: every corpus scenario and hostile inputs reaching unwritten memory are run under four allocator fill patterns and must give identical statuses, listings and bytes - partial.",
       NOTE, "4/C11")
 
+claim("C04", "Coq proof (fuel bounds: LZSS loop, search resumption, CHM chunk walk for every link structure) + per-call edge-count budget on the C library built with coverage callbacks",
+      "Proof: the LZSS port returns within |input|+1 iterations on every input and buffer size; cabd_find resumes strictly after every candidate header; the (repaired) fast_find walk ends within num_chunks visits whatever the chunk links say. All other loops (inflate, LZX, Quantum, LZH, block readers, OAB) are bounded on the C side only: edges executed per API call vs a budget linear in input+output bytes, hang detection by edge cap - partial.",
+      NOTE, "4/C04")
+
 def main():
     props = [json.loads(l)["id"] for l in open(os.path.join(V, "properties.jsonl"))]
     # only claim what has a check module
